@@ -45,6 +45,18 @@ CLAIMED["C13"] = (
     "DESIGN.md §3 C13",
     "Configuration MAX (feature fuel on).  Host callbacks cannot reach the private tracker (type privacy).")
 
+CLAIMED["C19"] = (
+    "error-discipline rule (Result disposition analysis over MIR def-use + CFG) on every Output write and Output-passing call; pairing rule WriteWrapper <-> take_err",
+    "Static rule check: the fmt::Result / Result of every write on Output and of every call that receives the "
+    "caller's Output is returned or reaches `return Err` on its Err branch on all paths (dropped, .ok(), unwrap_or, "
+    "is_err-only, unwrap are reported with the call site); WriteWrapper stores the io::Error and returns fmt::Error; "
+    "each WriteWrapper construction is paired with take_err on the error path, and take_err yields WriteFailure with "
+    "the io::Error as source; macros render into their own buffer.  Decides 'never swallowed / converted / panics' "
+    "for every path of the engine's own code (thorough: in four feature configurations); the prefix/ordering of "
+    "delivered bytes is value-level and not decided.",
+    "DESIGN.md §3 C19",
+    "std::fmt machinery is trusted to propagate Err from write_str; host-supplied formatters/objects are assumed to propagate.")
+
 NOT_APPLICABLE = {
 }
 
